@@ -512,6 +512,12 @@ class CGenerator:
             s += " ".join(n.storage) + " "
         if n.align:
             s += self.visit(n.align[0]) + " "
+        if n.quals and isinstance(
+            n.type, (c_ast.Struct, c_ast.Union, c_ast.Enum, c_ast.IdentifierType)
+        ):
+            # A declaration without a declarator has no TypeDecl to carry
+            # the qualifiers.
+            s += " ".join(n.quals) + " "
         s += self._generate_type(n.type)
         return s
 
